@@ -38,6 +38,11 @@ def run_C13(ctx):
     base = {"task": "external", "left": "aux(X) :- q(X), X > 0. p(X) :- aux(X).", "right": "aux(X) :- q(X), X >= 1. p(X) :- aux(X).",
             "ug": "input: q/1. output: p/1. output: r/1."}
     cases += [dict(base, id=f"h{i}", po=po) for i, po in enumerate(OUTLINE_HAND)]
+    # lemmas that mention only placeholders
+    pbase = {"task": "external", "left": "p(X) :- q(X), X > n.", "right": "p(X) :- q(X), X >= n + 1.", "ug": "input: q/1. output: p/1. input: n -> integer."}
+    for i, po in enumerate(["lemma[e1]: n >= 1 or n < 1.", "lemma[e1]: n >= 1 or n < 1. lemma(forward)[e2]: forall X (p(X) -> X > n).",
+                            "lemma(backward)[e1]: n != n + 1. lemma[e2]: forall X (p(X) -> q(X))."]):
+        cases.append(dict(pbase, id=f"ph{i}", po=po))
     fs = E.ext_flagsets()
     for i, c in enumerate(cases):
         c["flagsets"] = [fs[7], fs[(i * 3) % 8]] if q else [fs[k] for k in (0, 3, 5, 7)]
